@@ -160,6 +160,7 @@ type RunCfg struct {
 	FPYieldPct   int  `json:"fp_yield_pct"`
 	ClockVaryPct int  `json:"clock_vary_pct,omitempty"`
 	CPUVary      bool `json:"cpu_vary,omitempty"`
+	RandVary     bool `json:"rand_vary,omitempty"`
 }
 
 // World is the complete workload of one run.
